@@ -5,6 +5,7 @@ source, so their agreement with the property's ordering is a static fact."""
 import re
 from .prog import short, place_fields
 from . import flow as F
+from . import arms as A
 from . import pathrules as PR
 
 PARSER = "sqlgrep::parsing::parser::Parser::"
@@ -71,6 +72,151 @@ def token_table(R):
             if name:
                 res[name[-1] if len(name) == 1 else name[0]] = val
     return res, default, f
+
+
+TOKEN = "sqlgrep::parsing::tokenizer::Token"
+SELF_CLOSING = {"LeftSquareParentheses"}   # `a[i]`: the bracket closes its own operand, nothing can bind tighter inside it
+
+
+def _token_const(f, op):
+    """variant name of a Token constant operand (possibly promoted)"""
+    for o in F.origins(f, op, depth=5, through_calls=False):
+        if o.kind == "const" and o.const is not None:
+            if "promoted" in o.const and o.const["promoted"] < len(f.promoted):
+                for pb in f.promoted[o.const["promoted"]]["blocks"]:
+                    for ps in pb["stmts"]:
+                        if ps["k"] == "assign" and ps["rv"]["k"] == "aggr" and (ps["rv"].get("adt") or "").endswith("tokenizer::Token"):
+                            return ps["rv"].get("variant")
+            m = re.search(r"Token::([A-Za-z]+)", o.const.get("v", "") or "")
+            if m:
+                return m.group(1)
+        if o.kind == "aggr" and o.place is not None:
+            for i, st in f.stmts():
+                if st["k"] == "assign" and st["pl"]["l"] == o.place["l"] and st["rv"]["k"] == "aggr" and \
+                        (st["rv"].get("adt") or "").endswith("tokenizer::Token"):
+                    return st["rv"].get("variant")
+    return None
+
+
+def _may_return(P, g, want, local=0):
+    """top-level Token variants for which bool function g can return `want` (or, with `local`, for which that bool local of g is set to `want`);
+    None if the value is not produced by a match over a Token"""
+    rets = {}
+    for i, st in g.stmts():
+        if st["k"] == "assign" and st["pl"]["l"] == local and not st["pl"]["p"] and st["rv"]["k"] == "use" and st["rv"]["op"]["k"] == "const" \
+                and st["rv"]["op"].get("v") in ("true", "false"):
+            rets[i] = st["rv"]["op"]["v"] == "true"
+    if not rets:
+        return None
+    for sw in A.enum_switches(g, "tokenizer::Token"):
+        if not all(g.dominates(sw, b) for b in rets):
+            continue
+        kind, rv, targets = F.switch_info(g, sw)
+        names = {dv: n for dv, n in rv.get("variants", [])}
+        out = set()
+        listed = set()
+        for lab, b in targets.items():
+            if lab == "otherwise":
+                continue
+            listed.add(names.get(lab))
+            if any(rets[r] == want for r in rets if r in g.reachable_from(b, avoid={sw})):
+                out.add(names.get(lab))
+        if g.blocks[targets["otherwise"]]["term"]["k"] != "unreachable":
+            if any(rets[r] == want for r in rets if r in g.reachable_from(targets["otherwise"], avoid={sw})):
+                out |= set(n for n in names.values() if n not in listed)
+        return out
+    return None
+
+
+def _climb_exclusions(R, f, rec, p=None):
+    """C13.operand: after the right operand of a binary operator is parsed, a tighter-binding operator that follows must extend it.
+    Only the subscript (whose bracket closes the operand) may skip that step."""
+    P = R.prog
+    R.rule("C13.operand", "the right operand of every binary operator except the self-closing subscript is extended by a following operator "
+                          "that binds tighter (a OP b * c is a OP (b * c) for IS / IN / comparisons / + - alike)")
+    ext = []
+    for c in rec:
+        for o in F.origins(f, c.args[1], depth=6, through_calls=False):
+            if o.kind == "binop" and o.extra in ("Add", "AddWithOverflow"):
+                ext.append(c)
+    if not ext:
+        return
+    c = ext[0]
+    excluded = set()
+    unknown = []
+    for gsw, lab, tgt in F.guards_dominating(f, c.bb):
+        info = F.switch_info(f, gsw)
+        if not info:
+            continue
+        if info[0] == "discr" and (info[1].get("adt") or "").endswith("tokenizer::Token"):
+            # is the matched token the operator (not the look-ahead)?  only an `otherwise` edge excludes the listed variants
+            names = {dv: n for dv, n in info[1].get("variants", [])}
+            listed = set(names.get(l) for l in info[2] if l != "otherwise")
+            # the loop's own dispatch on the operator comes later (building the node); a guard here that dominates the climb restricts it
+            if lab == "otherwise":
+                excluded |= listed
+            else:
+                excluded |= set(n for n in names.values() if n != names.get(lab))
+            continue
+        if info[0] != "bool":
+            continue
+        pos, os_ = F.bool_edge_polarity(f, gsw, lab)
+        if os_ and all(o.kind == "const" for o in os_):
+            # `matches!(op, ..)`: a bool local set to constants in the arms of a match
+            d = f.blocks[gsw]["term"]["discr"]
+            cur = d["pl"]["l"] if d["k"] in ("copy", "move") else None
+            for _ in range(3):
+                defs = [st for _, st in f.stmts() if st["k"] == "assign" and st["pl"]["l"] == cur and not st["pl"]["p"]]
+                if len(defs) == 1 and defs[0]["rv"]["k"] == "unop" and defs[0]["rv"]["o"]["k"] in ("copy", "move"):
+                    cur = defs[0]["rv"]["o"]["pl"]["l"]
+                elif len(defs) == 1 and defs[0]["rv"]["k"] == "use" and defs[0]["rv"]["op"]["k"] in ("copy", "move"):
+                    cur = defs[0]["rv"]["op"]["pl"]["l"]
+                else:
+                    break
+            mr = _may_return(P, f, not pos, local=cur) if cur is not None else None
+            if mr is None:
+                unknown.append("a constant-valued flag")
+            else:
+                excluded |= mr
+            continue
+        for o in os_:
+            if o.kind != "call":
+                continue
+            sn = short(o.call.name)
+            ts = o.call.func.get("res_targs") or o.call.targs
+            m = re.search(r"PartialEq(<.*>)?>?::(eq|ne)$", sn)
+            if m and ts and TOKEN in ts[0]:
+                v = None
+                for a_ in o.call.args:
+                    v = v or _token_const(f, a_)
+                is_ne = m.group(2) == "ne"
+                if v is None:
+                    unknown.append(sn)
+                elif is_ne == pos:
+                    excluded.add(v)          # climb only when op != v
+                else:
+                    excluded.add("every operator but " + v)
+                continue
+            keys = [k for k in P.callee_keys(f, o.call) if P.fns[k].local_ty(0) == "bool"]
+            if keys and any(TOKEN in (f.local_ty(a_["pl"]["l"]) if a_["k"] in ("copy", "move") else "") for a_ in o.call.args):
+                mr = _may_return(P, P.fns[keys[0]], not pos)
+                if mr is None:
+                    unknown.append(sn)
+                else:
+                    excluded |= mr
+    harmless = set(SELF_CLOSING)
+    if p and p.get("::") is not None and p["::"] >= max(v for v in p.values() if v is not None):
+        harmless.add("DoubleColon")   # nothing binds tighter than the cast, so `next precedence > p(::)` never holds anyway
+    extra = sorted(x for x in excluded if x not in harmless)
+    if unknown:
+        R.violation("C13.operand", "climb|unrecognised-guard", "the step that extends the right operand is guarded by %s, which the engine cannot "
+                                                                "reduce to a set of operators" % unknown[0], [c.loc()])
+    elif extra:
+        R.violation("C13.operand", "climb|" + ",".join(extra),
+                    "after the right operand of %s the parser does not let a tighter-binding operator extend it: `x IS y + 1` groups as "
+                    "`(x IS y) + 1` (only the subscript, whose bracket closes its operand, may skip the step)" % "/".join(extra), [c.loc()])
+    else:
+        R.ok("C13.operand", "climb", "extension skipped only for %s" % (sorted(excluded) or "no operator"), c.loc())
 
 
 def run(R):
@@ -155,6 +301,8 @@ def run(R):
             R.violation("C13.assoc", "increment", "the right operand is not parsed at token_precedence + 1", [rec[0].loc()])
         else:
             R.ok("C13.assoc", "loop", "`<` on both tests, recursion at token_precedence + 1", rec[0].loc())
+    # ---- which operators may refuse to extend their right operand
+    _climb_exclusions(R, f, rec, p if not missing else None)
     # ---- prefix operators
     # the prefix-operator function: the Parser method that builds the Invert (NOT) node
     ufs = [g for g in P.fns.values() if g.spath.startswith(PARSER) and
